@@ -1,5 +1,5 @@
 /* Reference model of grid.jdf.  globals g[] = { N, M }
- * G(i,j): i = N .. 0 .. -1 ; j = i .. M+i .. 3        H(i,l): i = 0 .. N ; l = i .. i+3*(M/3)+2 */
+ * G(i,j): i = N .. 0 .. -1 ; j = i .. M+i .. 3        H(i,l): i = 0 .. N ; l = i .. i+3*((M+3)/3)-1 */
 #define REF_NG 2
 #define REF_TP_T __parsec_grid_internal_taskpool_t
 static void ref_set_globals(REF_TP_T *tp, const int *g, parsec_data_collection_t *dc)
@@ -12,7 +12,7 @@ static void ref_G_fill(__parsec_grid_G_parsec_assignment_t *a, const int *g, con
 
 #define REF_H_NP 2
 static int ref_H_in_space(const int *g, const int *p)
-{ return 0 <= p[0] && p[0] <= g[0] && p[0] <= p[1] && p[1] <= p[0] + 3 * (g[1] / 3) + 2; }
+{ return 0 <= p[0] && p[0] <= g[0] && p[0] <= p[1] && p[1] <= p[0] + 3 * ((g[1] + 3) / 3) - 1; }
 static void ref_H_fill(__parsec_grid_H_parsec_assignment_t *a, const int *g, const int *p) { (void)g; a->i.value = p[0]; a->l.value = p[1]; }
 
 /* ---- generic (class-indexed) part used by C01/C02 ---- */
@@ -72,4 +72,23 @@ static parsec_key_t ref_make_key(const REF_TP_T *tp, int c, const parsec_assignm
 {
     if (c == 0) return __jdf2c_make_key_G((const parsec_taskpool_t *)tp, l);
     (void)c; return __jdf2c_make_key_H((const parsec_taskpool_t *)tp, l);
+}
+
+/* IN side, data flows only: the unique task predecessor of (c, p).f */
+static int ref_pred(const int *g, int c, const int *p, int f, int *pc, int *pp, int *pf)
+{
+    (void)g;
+    if (c == REF_CLS_G && f == G_A && p[1] != p[0]) { *pc = REF_CLS_G; pp[0] = p[0]; pp[1] = p[1] - 3; *pf = G_A; return 1; }
+    if (c == REF_CLS_H && f == H_B) { *pc = REF_CLS_G; pp[0] = p[0]; pp[1] = p[1] - (p[1] - p[0]) % 3; *pf = G_A; return 1; }
+    if (c == REF_CLS_H && f == H_C && (p[1] - p[0]) % 3 == 0) { *pc = REF_CLS_G; pp[0] = p[0]; pp[1] = p[1]; *pf = G_W; return 1; }
+    return 0;
+}
+static int ref_is_ctl(int c, int f) { (void)c; (void)f; return 0; }
+
+/* key of instance (c, p) through the real generated make_key */
+static parsec_key_t ref_key_of(const REF_TP_T *tp, const int *g, int c, const int *p)
+{
+    if (c == 0) { __parsec_grid_G_parsec_assignment_t a = { 0 }; ref_G_fill(&a, g, p); return __jdf2c_make_key_G((const parsec_taskpool_t *)tp, (const parsec_assignment_t *)&a); }
+    if (c == 1) { __parsec_grid_H_parsec_assignment_t a = { 0 }; ref_H_fill(&a, g, p); return __jdf2c_make_key_H((const parsec_taskpool_t *)tp, (const parsec_assignment_t *)&a); }
+    return 0;
 }
